@@ -703,6 +703,16 @@ class Engine:
             loc = args[0][1]
             old_v = self.read_loc(path, loc)
             return [(old_v, None, [(loc, args[1])])]
+        if re.search(r"<impl bool>::then_some(::<.*>)?$", nm) and len(args) == 2:
+            # `c.then_some(v)`: Some(v) if c else None
+            c_ = args[0]
+            OPT_ = "std::option::Option"
+            d_ = self.decide(path, c_)
+            if c_ == ("bool", True) or d_ is True:
+                return [(("adt", OPT_, "Some", (args[1],)), None)]
+            if c_ == ("bool", False) or d_ is False:
+                return [(("adt", OPT_, "None", ()), None)]
+            return [(("adt", OPT_, "None", ()), [(c_, False)]), (("adt", OPT_, "Some", (args[1],)), [(c_, True)])]
         m_ = re.search(r"(option::Option|result::Result)::<.*>::(unwrap_or|unwrap_or_default)$", nm)
         if m_ and args:
             # `x.unwrap_or(d)`: the payload if there is one, else d — a branch on the variant like `match`
@@ -962,9 +972,15 @@ class Engine:
         if depth > 4 or src[0] != "app" or len(src[2]) < 1:
             return [(base_item, path)]
         nm = str(src[1])
-        m = re.search(r"iter::Iterator>::(map|filter_map|filter|flat_map|enumerate|cloned|copied|by_ref|inspect|take_while)(::<.*>)?$", nm)
+        m = re.search(r"iter::Iterator>::(map|filter_map|filter|flat_map|enumerate|cloned|copied|by_ref|inspect|take_while|zip)(::<.*>)?$", nm)
         if not m:
             return [(base_item, path)]
+        if m.group(1) == "zip":
+            # `it.zip(0..)` numbers the elements like enumerate (the pair is (element, number)); any other partner is opaque
+            other = src[2][1] if len(src[2]) > 1 else None
+            other = self.deref_val(path, other) if other is not None and other[0] == "ref" else other
+            if not (other is not None and other[0] == "adt" and str(other[1]).endswith("RangeFrom") and other[3] and other[3][0] == ("int", 0)):
+                return [(("app", nm, (base_item,)), path)]
         meth = m.group(1)
         if meth == "flat_map":
             # one element of the inner iterator the closure builds for one element of the outer one
@@ -1004,6 +1020,9 @@ class Engine:
                 continue
             if meth == "enumerate":
                 outs.append((("tuple", (("sym", "index@bb%d" % bb), el)), p))
+                continue
+            if meth == "zip":
+                outs.append((("tuple", (el, ("sym", "index@bb%d" % bb))), p))
                 continue
             f = src[2][1] if len(src[2]) > 1 else None
             if f is None or self.closure_target(p, f, []) is None:
